@@ -340,9 +340,9 @@ bad = (not bool(torch.isfinite(got).all())) or (bool(w.all()) and bool((got < 1e
 sys.exit(1 if bad else 0)
 """
 
-            rec.prove("early:not-nan-not-inf", z3.Implies(early, z3.Not(z3.Or(z3.fpIsNaN(o), z3.fpIsInf(o)))), extra=side, replay=rp, timeout_ms=90000, pins=pins, what="early event gives NaN/inf")
-            rec.prove("early:observed=>prohibitive", z3.Implies(z3.And(early, w.sym[0, 0]), z3.fpGEQ(o, big)), extra=side, replay=rp, timeout_ms=90000, pins=pins, what="early observed event not penalised")
-            rec.prove("early:censored=>survival-term-only(zero)", z3.Implies(z3.And(early, z3.Not(w.sym[0, 0])), z3.fpIsZero(o)), extra=side, replay=rp, timeout_ms=90000, pins=pins, what="early censored event does not contribute its survival term only")
+            rec.prove("early:not-nan-not-inf", z3.Implies(early, z3.Not(z3.Or(z3.fpIsNaN(o), z3.fpIsInf(o)))), extra=side, replay=rp, timeout_ms=240000, pins=pins, what="early event gives NaN/inf")
+            rec.prove("early:observed=>prohibitive", z3.Implies(z3.And(early, w.sym[0, 0]), z3.fpGEQ(o, big)), extra=side, replay=rp, timeout_ms=240000, pins=pins, what="early observed event not penalised")
+            rec.prove("early:censored=>survival-term-only(zero)", z3.Implies(z3.And(early, z3.Not(w.sym[0, 0])), z3.fpIsZero(o)), extra=side, replay=rp, timeout_ms=240000, pins=pins, what="early censored event does not contribute its survival term only")
             rec.twin("early-feasible", extra=side + [early], timeout_ms=60000, witness=wit)
             rec.end_path(c)
         rec.sample({"family": fam.__name__, "case": "t <= 0 penalty, float64", "INFINITY": constants.INFINITY})
